@@ -5,7 +5,14 @@ open MdIt.C05
 #check @translate_affine
 #check @translate_mono
 #check @translate_mono_virtual
-#check @translate_not_mono_inside_virtual
+#check @translate_mono_all
+#check @translate_le_next
+#check @translate_segment_free
+#check @translate_segment_mono
+#check @translate_affine_mono
+#check @getSourcePosFor_eq_raw_at
+#check @getSourcePosFor_eq_raw
+#check @translateRaw_not_mono_inside_virtual
 #check @pop_range
 #check @pop_faithful
 #check @text_pop_total
@@ -25,7 +32,14 @@ open MdIt.C05
 #print axioms translate_affine
 #print axioms translate_mono
 #print axioms translate_mono_virtual
-#print axioms translate_not_mono_inside_virtual
+#print axioms translate_mono_all
+#print axioms translate_le_next
+#print axioms translate_segment_free
+#print axioms translate_segment_mono
+#print axioms translate_affine_mono
+#print axioms getSourcePosFor_eq_raw_at
+#print axioms getSourcePosFor_eq_raw
+#print axioms translateRaw_not_mono_inside_virtual
 #print axioms pop_range
 #print axioms pop_faithful
 #print axioms text_pop_total
